@@ -32,7 +32,7 @@ DEFAULT_PROFILE = {
     "p_http": 0.9, "p_signature": 0.7, "p_routing": 0.25, "p_keyword_rpc": 0.08,
     "p_service_config": 0.8, "p_yaml": 0.3, "p_reserved_field": 0.08, "p_two_services": 0.25,
     "p_foreign_request": 0.1, "p_shuffle_numbers": 0.2, "p_additional_binding": 0.25,
-    "p_auto_populate": 0.0, "p_google_api_ns": 0.0, "sig_variants": False, "p_multi_var_path": 0.0, "mixin_variants": False, "p_add_iam_methods": 0.0, "p_equal_sort_keys": 0.0, "p_reserved_path_var": 0.0, "p_local_empty": 0.0, "common_file_names": ["resources"],
+    "p_auto_populate": 0.0, "p_google_api_ns": 0.0, "sig_variants": False, "p_multi_var_path": 0.0, "mixin_variants": False, "p_add_iam_methods": 0.0, "p_equal_sort_keys": 0.0, "p_reserved_path_var": 0.0, "p_local_empty": 0.0, "p_same_method_two_services": 0.0, "common_file_names": ["resources"],
     "transports": ["grpc", "grpc+rest", "grpc+rest", "rest"],
     "p_numeric_enums": 0.3,
     "paged_variants": False,
@@ -206,6 +206,18 @@ def gen_api(rng, prof=None):
 
     if p.get("p_auto_populate", 0) > 0:
         _add_auto_populated(cx, pkg, files, services)
+
+    if len(services) > 1 and cx.chance("p_same_method_two_services"):
+        # the same RPC name (and request type) in two services: service-config selectors must tell them apart
+        src = next((m for m in services[0]["methods"] if not m.get("client_streaming") and not m.get("server_streaming")
+                    and m["output"] != ".google.longrunning.Operation" and not m.get("own_mixin_name")), None)
+        if src is not None and all(m["name"] != src["name"] for m in services[1]["methods"]):
+            twin = copy.deepcopy(src)
+            if "http" in twin:
+                twin["http"]["path"] = twin["http"]["path"].replace("/v", "/admin/v", 1)
+                for a in twin["http"].get("additional", ()):
+                    a["path"] = a["path"].replace("/v", "/admin/v", 1)
+            services[1]["methods"].append(twin)
 
     # make sure every service has at least one method
     for s in services:
